@@ -161,6 +161,11 @@ func directedPool() []core.Value {
 		Arr(Obj("a", I(1), "b", I(2), "c", I(3)), Obj("a", I(2), "b", I(1), "c", I(3)), Obj("a", I(3), "b", I(2), "c", I(1)),
 			Obj("a", I(1), "b", I(3), "c", I(2)), Obj("a", I(2), "b", I(3), "c", I(1)), Obj("a", I(3), "b", I(1), "c", I(2)), Obj("a", I(1), "b", I(2), "c", I(3))),
 		bigObject(24),
+		// empty containers nested under keys that other arguments share (a shortcut for "nothing to
+		// copy" must not hand out the argument's own container), and a string long enough to grow
+		// any pooled buffer past its reset threshold
+		Obj("a", Obj(), "c", Arr()), Obj("a", Obj("x", I(1)), "c", Arr(I(1))), Arr(Arr(), Obj()),
+		S(strings.Repeat("xy", 3000)),
 	}
 }
 
